@@ -200,16 +200,11 @@ def kde_cdf(n):
     ax = phi_axioms([cx, cy, cl])
 
     def valid(goal, extra=()):
-        s = z3.Solver()
-        s.set('timeout', 30000)
-        s.add(*sd)
-        s.add(*ax)
-        s.add(*extra)
-        s.add(z3.Not(goal))
-        return s.check()
+        from symx.core import robust_check
+        return robust_check(list(sd) + list(ax) + list(extra) + [z3.Not(goal)])
     # Per-kernel lemmas (cut rule; every step is a solver query).  spec(t) = sum_i w_i (Phi((t-d_i)/s) - Phi((L-d_i)/s)).
     sv = [t for t in _consts(cx) if t.decl().name().startswith('sqrt#')]
-    mono = le1 = zero = False
+    mono = le1 = nonneg = False
     if len(sv) == 1:
         s_ = sv[0]
         ux = [PHI((x - d[i].t) / s_) for i in range(n)]
@@ -221,26 +216,25 @@ def kde_cdf(n):
         wfacts = [z3.Sum([v.t for v in w]) == 1] + [v.t >= 0 for v in w]
 
         def lin(goal, hyps):
-            s2_ = z3.Solver()
-            s2_.set('timeout', 30000)
-            s2_.add(*hyps)
-            s2_.add(z3.Not(goal))
-            return s2_.check() == z3.unsat
+            from symx.core import robust_check
+            return robust_check(list(hyps) + [z3.Not(goal)]) == z3.unsat
         if valid(z3.And(cx == z3.Sum(tx), cy == z3.Sum(ty)), ax2) == z3.unsat:
             ident = [cx == z3.Sum(tx), cy == z3.Sum(ty)]
             lem_m = [z3.Implies(x <= y, tx[i] <= ty[i]) for i in range(n)]
             lem_1 = [tx[i] <= w[i].t for i in range(n)]
-            ok_l = all(valid(l_, ax2 + [s_ > 0]) == z3.unsat for l_ in lem_m + lem_1)
+            lem_0 = [z3.Implies(x >= lo, tx[i] >= 0) for i in range(n)]
+            ok_l = all(valid(l_, ax2 + [s_ > 0]) == z3.unsat for l_ in lem_m + lem_1 + lem_0)
             if ok_l:
                 mono = lin(z3.Implies(x <= y, cx <= cy), ident + lem_m)
                 le1 = lin(cx <= 1, ident + lem_1 + wfacts)
+                nonneg = lin(z3.Implies(x >= lo, cx >= 0), ident + lem_0)
     if not mono:
         bad.append('cdf is not non-decreasing')
     if valid(cl == 0) != z3.unsat:
         bad.append('cdf(lower integration bound) != 0')
     if not le1:
         bad.append('cdf can exceed 1')
-    if valid(cx >= 0, [x >= lo]) != z3.unsat:
+    if not nonneg:
         bad.append('cdf negative above the lower integration bound')
     # derivative = weighted Gaussian kernel density  sum_i w_i phi((x-d_i)/s)/s
     dcdf = diff(cx, x)
@@ -261,8 +255,15 @@ def kde_cdf(n):
         bad.append(f'kernel standard deviation is not sqrt(covariance[0,0]) ({len(svars)} square roots in the term)')
     else:
         s_ = list(svars)[0]
-        dens = z3.Sum([w[i].t * PHID((x - d[i].t) / s_) / s_ for i in range(n)])
-        if valid(dcdf == dens, [s_ > 0]) != z3.unsat:
+        # term by term: d/dx [w_i (Phi((x-d_i)/s) - Phi((L-d_i)/s))] = w_i phi((x-d_i)/s)/s, then the sum
+        okd = False
+        if len(sv) == 1:
+            parts = [diff(tx[i], x) == w[i].t * PHID((x - d[i].t) / s_) / s_ for i in range(n)]
+            if all(valid(p_, [s_ > 0]) == z3.unsat for p_ in parts):
+                dens = z3.Sum([w[i].t * PHID((x - d[i].t) / s_) / s_ for i in range(n)])
+                from symx.core import robust_check
+                okd = robust_check(parts + [diff(z3.Sum(tx), x) != dens]) == z3.unsat and valid(cx == z3.Sum(tx), ax2) == z3.unsat
+        if not okd:
             bad.append('d cdf / dx is not the weighted Gaussian kernel density')
         if valid(s_ * s_ == s2.t) != z3.unsat:
             bad.append('kernel standard deviation squared is not covariance[0,0]')
@@ -496,6 +497,18 @@ def concrete_violation():
         pd_ = np.asarray(m.pdf(g), dtype=float)
         if np.any(pd_ < 0) or not np.allclose(np.asarray(m.log_probability_density(g[10:30]), dtype=float), np.log(pd_[10:30]), rtol=1e-8, atol=1e-10):
             return True, f'{fam}: pdf negative or log_probability_density != log(pdf)'
+    # weighted kernel estimate: CDF increments = integral of the density
+    from scipy import integrate
+    xs = rs.normal(size=30)
+    wts = rs.uniform(0.1, 3.0, size=30)
+    wts[:5] *= 8
+    k = GaussianKDE(weights=wts / wts.sum(), bw_method=0.6)
+    k.fit(xs)
+    for a_, b_ in ((-1.0, 0.0), (0.2, 1.5)):
+        inc = float(k.cdf(np.array([b_]))[0] - k.cdf(np.array([a_]))[0])
+        integ = integrate.quad(lambda t: float(k.pdf(np.array([t]))[0]), a_, b_)[0]
+        if abs(inc - integ) > 1e-6:
+            return True, f'weighted GaussianKDE: cdf({b_})-cdf({a_}) = {inc:.6f} but the density integrates to {integ:.6f}'
     return False, ''
 
 
@@ -537,7 +550,7 @@ def run(tier, seed):
                 if b:
                     ck.violation(nm.split(':')[0][:50], f'{nm}: {r["bad"][0]} -- {detail}', {})
                     done = True
-            if not done and 'negative above' not in str(r['bad']):
+            if not done:
                 ck.inconcl(f'{nm}: {r["bad"]}; not reproduced on the real code')
     # known weaknesses of the truncated integration bounds: decided symbolically as "not provable", replayed here
     for key, what in concrete_kde_tail():
